@@ -14,10 +14,12 @@ import (
 	"sync/atomic"
 	"testing"
 
+	"github.com/RoaringBitmap/roaring/v2"
 	segment "github.com/blevesearch/scorch_segment_api/v2"
 	"pgregory.net/rapid"
 
 	"verifharness/drive"
+	"verifharness/gen"
 	"verifharness/spec"
 	"verifharness/stats"
 )
@@ -150,7 +152,10 @@ func fullRead(seg segment.Segment, want *spec.Obs) string {
 }
 
 type refCase struct {
-	Ops string `json:"ops"` // A = AddRef, D = DecRef, C = Close
+	// A = AddRef, D = DecRef, C = Close; and, leaving the count unchanged, uses of the segment
+	// as the input of a public Merge: m = a merge that succeeds, M = a merge whose close channel
+	// is closed before the call, F = a merge whose destination cannot be created
+	Ops string `json:"ops"`
 }
 
 // runRefSequence executes one balanced sequence on a freshly opened segment.
@@ -196,11 +201,29 @@ func runRefSequence(c refCase, full bool) *Violation {
 			case 'C':
 				rerr = o.Close()
 				count--
+			case 'm', 'M', 'F':
+				// a merge borrows its inputs: whatever its outcome, the holder's references
+				// are neither consumed nor multiplied
+				dir := drive.NewDir("c20m")
+				defer os.RemoveAll(dir)
+				dest := filepath.Join(dir, "merged.zap")
+				var ch chan struct{}
+				if op == 'M' {
+					ch = make(chan struct{})
+					close(ch)
+				}
+				if op == 'F' {
+					dest = filepath.Join(dir, "no-such-dir", "merged.zap")
+				}
+				_, _, merr := drive.Plugin.Merge([]segment.Segment{o}, []*roaring.Bitmap{nil}, dest, ch, nil)
+				if (merr == nil) != (op == 'm') {
+					return fmt.Errorf("merge of kind %c returned %v", op, merr)
+				}
 			}
 			return nil
 		})
 		if perr != nil {
-			return violation(prop, "refs/panic", "sequence %q: operation %d (%c) panicked: %v", c.Ops, i, op, perr)
+			return violation(prop, "refs/panic", "sequence %q: operation %d (%c) panicked or misbehaved: %v", c.Ops, i, op, perr)
 		}
 		if rerr != nil {
 			return violation(prop, "refs/release-error", "sequence %q: operation %d (%c) returned %v", c.Ops, i, op, rerr)
@@ -266,6 +289,16 @@ func TestC20Enum(t *testing.T) {
 			fail, failSeq = v, s
 		}
 	})
+	// the held segment also serves as the input of merges that succeed, are cancelled or fail
+	for _, s := range []string{"MC", "FC", "mC", "MD", "AMDFC", "MAFCmD", "AAMDFDmC"} {
+		if fail != nil {
+			break
+		}
+		col.CaseHash(stats.HashJSON(s), true, []string{"merge-of-the-held-segment"}, func() any { return s })
+		if v := runRefSequence(refCase{Ops: s}, true); v != nil {
+			fail, failSeq = v, s
+		}
+	}
 	if fail != nil {
 		col.Freeze()
 		path := writeReplay(prop, "enum", refCase{Ops: failSeq}, fail)
@@ -295,6 +328,9 @@ var c20rand = Check[refCase]{
 		count, used := 1, 0
 		var ops []byte
 		for i := 0; used < adds && i < 200; i++ {
+			if gen.Chance(t, fmt.Sprintf("merge%d", i), 15) {
+				ops = append(ops, rapid.SampledFrom([]byte{'M', 'F', 'm'}).Draw(t, fmt.Sprintf("mk%d", i)))
+			}
 			if count == 1 || rapid.Bool().Draw(t, fmt.Sprintf("up%d", i)) {
 				ops = append(ops, 'A')
 				count++
@@ -313,7 +349,14 @@ var c20rand = Check[refCase]{
 	Run: func(c refCase) *Violation { return runRefSequence(c, false) },
 	Classify: func(c refCase) (bool, []string) {
 		s := c.Ops
-		return strings.Contains(s, "A") && strings.Contains(s, "D") && strings.Contains(s, "C"), []string{fmt.Sprintf("len>=%d", len(s)/10*10)}
+		cl := []string{fmt.Sprintf("len>=%d", len(s)/10*10)}
+		if strings.ContainsAny(s, "MF") {
+			cl = append(cl, "failed-or-cancelled-merge-of-the-held-segment")
+		}
+		if strings.Contains(s, "m") {
+			cl = append(cl, "successful-merge-of-the-held-segment")
+		}
+		return strings.Contains(s, "A") && strings.Contains(s, "D") && strings.Contains(s, "C"), cl
 	},
 }
 
